@@ -96,3 +96,23 @@ CHECKS.update({
                 note="Only the 'Async' class prefix and a-prefixed method names may differ in messages/reprs; executed-line equality relies on the translator being line-preserving."),
 })
 NOT_YET = {}
+
+# what the fourth session (round 16 of independently written breaks) added to each check
+ADDENDA = {
+    "C01": "Also: servers that follow a complete keep-alive response with an unsolicited second one; callers whose trace callback awaits; a reader-cancel sweep in which a SETTINGS change arrives in the same read as a sibling's response.",
+    "C03": "Also: HTTP/2 sequences in which the server refuses the second request of each connection by GOAWAY, so that it is transmitted twice - both transmissions are decoded and compared.",
+    "C05": "Also: a one-stream HTTP/2 server type (a lost stream slot wedges the next request at once), unix-socket types, contexts in which a companion shares the victim's HTTP/2 connection while the victim's trace callback awaits, and an injection kind 'the victim's own trace callback raises at its n-th event'.",
+    "C06": "Same additions as C05 (one-stream HTTP/2 server, unix-socket types, awaiting / raising trace callbacks).",
+    "C07": "Also: servers that lower MAX_CONCURRENT_STREAMS below what is in flight while requests wait for a slot; uploads that the server answers early (413, optionally RST_STREAM(NO_ERROR)) while they are blocked on flow control; awaiting trace callbacks.",
+    "C09": "Also: HTTP/2 servers that follow every response with a PING / connection credit a little later (a readable idle socket says nothing about the health of an HTTP/2 connection).",
+    "C12": "Also: 'ping-gate' servers (a PING, and nothing more until it is acknowledged) and callers whose trace callback awaits between the steps of opening a stream.",
+    "C13": "Also: hundreds of responses given up unread or after one chunk on one connection (the connection-level credit of DATA nobody reads), followed by complete downloads.",
+    "C14": "Also: part A on kept-alive connections (the faulted call is the second on its connection) and part D 'a refusal is transparent': one caller, the GOAWAY is the last thing the server says, the call must succeed by exactly one re-send (known finding: last-stream-id 0).",
+    "C16": "Also: unix-socket connection types (connect_unix_socket must carry the connect timeout).",
+    "C17": "Also: payload kinds after the head - leading CR/LF, blanks, NULs, bytes that look like another response head.",
+    "C18": "Also: fault programs in which the caller's trace callback raises (at its n-th '.started'/'.complete' event, or at the first '.failed' event after an injected fault).",
+    "C19": "Also: port 0.",
+    "C20": "Also: every other history runs with a trace callback on the request, every third with socket options / a local address.",
+}
+for _k, _v in ADDENDA.items():
+    CHECKS[_k]["text"] += " " + _v
